@@ -1118,6 +1118,19 @@ def _setup_app(reg, ex):
 
     reg.stubs['falcon.util.misc:get_argnames'] = get_argnames
 
+    import falcon.asgi.ws as wsmod
+
+    def supports_reason_contract(I, asgi_ver):
+        # callee contract of _supports_reason (proved by harness supports_reason for the spec versions 2.0-2.4, 2.10, 3.0)
+        spec = I.ctx.ghost.get('spec')
+        if spec is None or isinstance(asgi_ver, str):
+            return wsmod._supports_reason(asgi_ver)  # concrete version (harness handshake_abandoned)
+        if asgi_ver is not spec[0]:
+            raise Unreached('_supports_reason asked about something other than the connection\'s spec version')
+        return spec[1]
+
+    reg.add_model(wsmod._supports_reason, supports_reason_contract)
+
 
 APP_INLINE = INLINE + [
     M + ':_BufferedReceiver.__init__',
@@ -1211,7 +1224,11 @@ def is_close(ev, code):
 
 
 def handle_websocket(v):
-    ver = v.one_of('spec-version', '2.0', '2.4')
+    # the spec version is an arbitrary string; what _supports_reason makes of it is its own contract (harness
+    # supports_reason): an arbitrary boolean here, so that both answers are covered without enumerating versions
+    supports = v.bool('server_supports_close_reason')
+    ver = ('2.4' if supports else '2.0') if v.concrete else v.str('spec_version')
+    v.ctx.ghost['spec'] = (ver, supports)
     maxq = v.one_of('max_receive_queue', 0, 4)
     route_kind = v.choose(3, 'route')
     with_mw = v.choose(2, 'middleware?')
@@ -1330,10 +1347,10 @@ for _r, _rn in ((UNROUTED, 'unrouted'), (NO_RESPONDER, 'no-responder'), (ROUTED,
         for _c in (0, 1):
             if _c and _r != ROUTED:
                 continue  # the custom handler is reached from the responder only
-            for _ver, _q in ((0, 0), (0, 1), (1, 0), (1, 1)):
-                harness(PROP, APP + '._handle_websocket', name='handle_websocket[%s,mw=%d,custom=%d,spec=%s,queue=%d]' % (_rn, _mw, _c, ('2.0', '2.4')[_ver], (0, 4)[_q]),
+            for _q in (0, 1):
+                harness(PROP, APP + '._handle_websocket', name='handle_websocket[%s,mw=%d,custom=%d,queue=%d]' % (_rn, _mw, _c, (0, 4)[_q]),
                         inline=APP_INLINE, setup=_setup_app,
-                        fix={'route': _r, 'middleware?': _mw, 'custom-error-handler?': _c, 'spec-version': _ver, 'max_receive_queue': _q})(handle_websocket)
+                        fix={'route': _r, 'middleware?': _mw, 'custom-error-handler?': _c, 'max_receive_queue': _q})(handle_websocket)
 
 
 @harness(PROP, APP + '._handle_websocket', name='handshake_abandoned', inline=APP_INLINE, setup=_setup_app)
